@@ -35,6 +35,7 @@ fn gen_cfg(m: &HashMap<String, String>, focus: &str) -> GenCfg {
         wide: geti(m, "wide", 0) as usize,
         long: geti(m, "long", 0) as usize,
         long_budget_us: geti(m, "long-budget-us", 2_000_000),
+        no_big: m.contains_key("no-big"),
         focus: focus.to_string(),
         max_window: geti(m, "max-window", if focus == "wnaf" { 13 } else { 8 }) as usize,
         min_window: geti(m, "min-window", 2) as usize,
@@ -54,6 +55,7 @@ fn cfg_json(c: &GenCfg) -> J {
         .set("wide", J::u(c.wide))
         .set("long", J::u(c.long))
         .set("long_budget_us", J::Int(c.long_budget_us as i64))
+        .set("no_big", J::Bool(c.no_big))
         .set("max_window", J::u(c.max_window))
         .set("min_window", J::u(c.min_window))
         .set("with_256", J::Bool(c.with_256))
@@ -66,6 +68,7 @@ fn cfg_from(j: &J) -> GenCfg {
         wide: j.get("wide").and_then(|x| x.as_usize()).unwrap_or(0),
         long: j.get("long").and_then(|x| x.as_usize()).unwrap_or(0),
         long_budget_us: j.get("long_budget_us").and_then(|x| x.as_i64()).unwrap_or(2_000_000) as u64,
+        no_big: j.get("no_big").and_then(|x| x.as_bool()).unwrap_or(false),
         focus: j.get("focus").and_then(|x| x.as_str()).unwrap_or("c20").to_string(),
         max_window: j.get("max_window").and_then(|x| x.as_usize()).unwrap_or(8),
         min_window: j.get("min_window").and_then(|x| x.as_usize()).unwrap_or(2),
